@@ -5,10 +5,10 @@
 # there.  /repo and /verif are not touched.  Prints one line per (check, profile): exit code.
 set -u
 PATCH="$(readlink -f "$1")"; shift
-BOX=/tmp/mutbox
+BOX="${BOX:-/tmp/mutbox}"
 PROFILES="${PROFILES:-rel}"
 TIER="${TIER:-quick}"
-exec 9>/tmp/mutbox.lock; flock 9
+exec 9>"$BOX.lock"; flock 9
 mkdir -p $BOX
 if [ ! -d $BOX/repo/.git ] && [ ! -f $BOX/repo/.git ]; then
   git -C /repo worktree prune
@@ -24,7 +24,7 @@ rsync -a --delete --exclude target $BOX/sim-src/sim/ $BOX/sim/
 sed -i "s#path = \"/repo\"#path = \"$BOX/repo\"#" $BOX/sim/Cargo.toml
 cp /verif/known_findings.json $BOX/verif/
 export VERIF_DIR=$BOX/verif CARGO_NET_OFFLINE=true
-ulimit -v 30000000   # a patch must not be able to exhaust memory (e.g. a compiler blow-up)
+ulimit -v "${VMEM:-30000000}"   # a patch must not be able to exhaust memory (e.g. a compiler blow-up)
 for p in $PROFILES; do
   if [ $p = rel ]; then BIN=$BOX/sim/target/rel/release/ohsim; rm -f $BIN; ( cd $BOX/sim && CARGO_TARGET_DIR=target/rel timeout 900 cargo build --release --offline --quiet 2>&1 | grep -E "^error" -A8 | head -30 )
   else BIN=$BOX/sim/target/dbg/debug/ohsim; rm -f $BIN; ( cd $BOX/sim && CARGO_TARGET_DIR=target/dbg timeout 900 cargo build --offline --quiet 2>&1 | grep -E "^error" -A8 | head -30 ); fi
